@@ -46,6 +46,17 @@ CHECKS['C11'] = dict(
    note='real-code schedules are seeded random, not enumerated; grow_to_at_least is required to wait for allocation, not for construction by other threads (documented); post-failure only accesses and destruction are exercised',
    technique='PlusCal protocol spec checked by TLC + TLC trace validation of recorded real executions (random cooperative schedules, fault injection, large sizes) against VectorAbs',
    design='4 (C11), 6.3, 6.5, 6.10')
+CHECKS['C03'] = dict(
+   text='TLC model-checks EHDispatch (throwing task -> cancel_group_execution winner stores the exception -> remaining tasks skipped -> waiter rethrows and '
+        'resets) for every subset of throwing tasks and every interleaving of 2-3 executing threads and the waiter. 18 programs over the real library '
+        '(parallel_for x4 partitioners, custom Range, parallel_reduce x3 forms, deterministic reduce, parallel_for_each with feeder, parallel_invoke, '
+        'parallel_pipeline, nested task_group, task_arena::execute, parallel_scan, parallel_sort, flow graph) run with the k-th body / join / split ctor / '
+        'copy ctor / filter invocation throwing, for every k up to a per-program bound, each case forked, on 3 logical threads of an all-reserved arena '
+        'under seeded random cooperative schedules with a stuck detector; each program is called twice (reusability). Call/BB/BE/Throw/Ret/Exc/Obj/Quiesce '
+        'events are validated by TLC against GroupEH (one thrown exception surfaces, no live or later body, objects destroyed exactly once).',
+   note='one injected fault per execution; schedules sampled (seeded random), not enumerated; known findings: throwing join hangs parallel_reduce, leaked Body in deterministic reduce (DESIGN 6.6)',
+   technique='PlusCal protocol model checked by TLC + fault enumeration on the real library with TLC trace validation against GroupEH',
+   design='4 (C03), 6.6')
 REASON_PENDING = 'check not built yet in this round (planned in DESIGN.md section 4); no verdict is claimed'
 m = {
  'version': 1,
